@@ -51,14 +51,14 @@ impl Comp for PathRespC {
                 let (Some(packet), Some(token), Some(remote)) = (num(packet), num(token), addr(remote)) else {
                     return BAD.into();
                 };
-                self.0.push(packet, token, remote);
+                self.0.push(packet, token, remote, usize::MAX);
                 format!("ok {}", self.state())
             }
             ["pop_off", remote] => {
                 let Some(remote) = addr(remote) else { return BAD.into() };
                 match self.0.pop_off_path(remote) {
                     None => format!("none {}", self.state()),
-                    Some((token, r)) => format!("ok {token} {} {}", unaddr(&r), self.state()),
+                    Some((token, r, _)) => format!("ok {token} {} {}", unaddr(&r), self.state()),
                 }
             }
             ["pop_on", remote] => {
